@@ -23,6 +23,8 @@ C = 'geom2::curve2::Curve2'
 
 def run(cx):
     # ---------------------------------------------------------------- compositions
+    from rules.C01 import length_along_rule
+    length_along_rule(cx, 'geom2::curve2::CurveStation2', 'Curve2', 'CurveStation2')
     b = cx.fn(f'{C}::trim_front')
     if b:
         cx.expect('EXPR', 'trim_front', cx.retval(b), '(call *between_lengths (param self) (param length) (call *Curve2::length (param self)))', 'trim_front(l) = between_lengths(l, length())', where=b.file)
